@@ -345,7 +345,7 @@ def bounded(tier, seed):
               "alphabet, structured samples of every format named in the statement and seeded mutations of them, each as HTTP response body with the matching content type, "
               "and as TCP / UDP / WebSocket message; checked: no exception, text is str, no C0/DEL control character except \\t\\n\\r, (separately) no C1 control character; "
               "DNS: unpack(reencode(prettify(m))) == m on header fields, questions and all record sections for a message pool over UDP and TCP framing; distinct = (view, kind, content type, body)")
-    n_mut = 6 if tier == "quick" else 400
+    n_mut = 6 if tier == "quick" else 30
     b.bound = f"{n_mut} mutations per sample; {len(_dns_pool())} DNS messages x 2 framings"
     b.exhaustive = False
     rnd = random.Random(seed)
@@ -357,8 +357,7 @@ def bounded(tier, seed):
                 bodies.append((ct, _mutate(rnd, s)))
     alpha = [0x00, 0x1B, 0x7B, 0x3C, 0x22, 0x0A, 0x61, 0x9B, 0xC2, 0xFF]
     small = [bytes([c]) for c in range(256)] + [bytes(t) for n in (2, 3) for t in itertools.product(alpha, repeat=n)]
-    if tier == "quick":
-        small = small[::6]
+    small = small[::6] if tier == "quick" else small[::2]
     for s in small:
         bodies.append(("", s))
     d = dumper.Dumper()    # registers the options make_metadata / prettify read through ctx.options
